@@ -156,12 +156,12 @@ func checkLax(t *testing.T, c LaxCase) harness.Verdict {
 		expectCanonical(&v, td, &tr, ctx, d1, exp, c.Rest)
 		return v
 	case ctx.laxReject:
-		// PrintableString holding NUL (neither ISO 8859-1 nor, by the fork's own reading, T.61): no mode may accept
+		// PrintableString whose octets are neither ISO 8859-1 nor T.61 text (or hold NUL): no mode may accept
 		if tr.std.ok() {
 			v.Failf("check-malformation-accepted-by-std", "stdlib accepts the generated malformation; %s", where)
 		}
 		if tr.lax.ok() {
-			v.Failf("lax-accepts-printable-nul", "lax accepts a PrintableString holding NUL; %s", where)
+			v.Failf("lax-accepts-undocumented-printable", "lax accepts a PrintableString whose octets are neither ISO 8859-1 nor T.61 text; %s", where)
 		}
 		v.Class("C:lax-must-reject")
 		return v
